@@ -1312,6 +1312,13 @@ class Engine:
                     cur = nxt
                 out.extend(("normal", c, None) for c in cur)
                 return out
+        if isinstance(it, ast.Call) and isinstance(it.func, ast.Name) and \
+                self.imports.get(it.func.id) == "itertools.combinations" and isinstance(s.target, ast.Tuple) \
+                and len(s.target.elts) == 2 and len(it.args) == 2 and isinstance(it.args[1], ast.Constant) \
+                and it.args[1].value == 2 and not self.concrete:
+            seq = self.ev(it.args[0], st)
+            if isinstance(seq, Ref) and self.is_set(st, seq):
+                return self.for_pairs(s, st, seq)
         if isinstance(s.target, ast.Name) and not self.concrete:
             seq = self.ev(it, st)
             if isinstance(seq, Ref) and self.is_set(st, seq):
@@ -1319,6 +1326,57 @@ class Engine:
             if isinstance(seq, Ref) and st.heap[seq.base].kind in ("setlist", "list") and not seq.prefix:
                 return self.for_list(s, st, seq)
         raise Unsupported("for over %s at line %s" % (ast.dump(it)[:40], s.lineno))
+
+    def for_pairs(self, s, st, seq):
+        """for a, b in combinations(S, 2): every unordered pair of distinct members exactly once, in some orientation
+        and order; the ghost pair-set seen_pairs holds the pairs already visited (as yielded)"""
+        from pyvc import externals
+        externals.USED.add("itertools.combinations(set, 2): each unordered pair of distinct members once")
+        k, spec = self.loop_spec(s)
+        if spec is None:
+            raise ContractError("for loop #%d (line %d) over pairs has no invariant in the sidecar" % (k, s.lineno))
+        va, vb = s.target.elts[0].id, s.target.elts[1].id
+        gname = "seen_pairs"
+        empty = z3.K(I, z3.K(I, z3.BoolVal(False)))
+        st.env[gname] = self.new_array(st, gname, "bool", 2, arr=empty, kind="pairset")
+        gbase = st.env[gname].base
+        sbase, sprefix = seq.base, seq.prefix
+
+        def members(stt):
+            return self.sel(stt, Ref(sbase, sprefix))
+
+        def seen(stt, a, b):
+            return z3.Select(z3.Select(stt.heap[gbase].arr, a), b)
+
+        def cond(stt):
+            a, b = fresh(va, I), fresh(vb, I)
+            stt.env[va], stt.env[vb] = a, b
+            m = members(stt)
+            stt.pc.append(z3.And(z3.Select(m, a), z3.Select(m, b), a != b, z3.Not(seen(stt, a, b)), z3.Not(seen(stt, b, a))))
+            return z3.BoolVal(True)
+
+        def exit_cond(stt):
+            a, b = z3.Int("pa!%d" % next(_fresh)), z3.Int("pb!%d" % next(_fresh))
+            m = members(stt)
+            return z3.ForAll([a, b], z3.Implies(z3.And(z3.Select(m, a), z3.Select(m, b), a != b),
+                                                z3.Or(seen(stt, a, b), seen(stt, b, a))))
+
+        def step(stt):
+            ho = stt.heap[gbase]
+            a, b = to_z3(stt.env[va]), to_z3(stt.env[vb])
+            stt.heap[gbase] = ho.replace(arr=z3.Store(ho.arr, a, z3.Store(z3.Select(ho.arr, a), b, z3.BoolVal(True))))
+
+        def auto(stt):
+            a, b = z3.Int("pa!%d" % next(_fresh)), z3.Int("pb!%d" % next(_fresh))
+            m = members(stt)
+            return z3.ForAll([a, b], z3.Implies(seen(stt, a, b), z3.And(z3.Select(m, a), z3.Select(m, b), a != b)))
+        res = self.cut_loop(s, st, k, spec, cond=cond, body=s.body, step=step, hidden={},
+                            auto=("seen_pairs_members", "seen pairs are pairs of distinct members", auto),
+                            exit_cond=exit_cond, extra_bases={gname})
+        for kind, s2, val in res:
+            if kind == "normal":
+                s2.env[va] = s2.env[vb] = PyObj("undefined")
+        return res
 
     def for_list(self, s, st, seq):
         """iteration over a list, in order; the ghost idx_<var> is the index of the current item"""
